@@ -361,7 +361,11 @@ class PVLParser(object):
                             if not keep_parsing:
                                 raise ve
                         except Exception:
-                            raise ve
+                            # The Begin-Aggregation-Statement (and maybe
+                            # more) has been consumed, so callers must
+                            # not take this as "not a block, try the next
+                            # production", which would drop the block.
+                            tokens.throw(ValueError, str(ve))
 
         return block_name, agg
 
